@@ -14,7 +14,7 @@ RULE = ('Exhaustive part: one recording per grid instant over a 4-day span (quic
         'grid instant (queried in chronological order so that nothing is stored after "now"). Random part: '
         'Hypothesis-generated minute-level recording instants, windows, metadata filters, limits, two categories '
         '(generated names, including date-format directives and format fields, one name extending the other) and '
-        'two key prefixes. Oracle: the set {r : start <= t(r) <= end} computed from the harness list of save instants. '
+        'two key prefixes; the first two exact lookups of a case are also consumed interleaved (both open at once). Oracle: the set {r : start <= t(r) <= end} computed from the harness list of save instants. '
         'Non-trivial: the window spans >= 2 calendar days and end time-of-day is earlier than start time-of-day '
         '(the class in which a day folder can be missed), or the window cuts through a day with recordings on both '
         'sides. Distinct = distinct (grid, start, end/now) or generated case.')
@@ -153,6 +153,7 @@ def check_random(ctx, case):
             saved.append((t, cat, x, save_at(cas, cat, t, {'x': x})))
             save_at(other, cat, t, {'x': x})
         last = max(t for t, _, _, _ in saved)
+        done_queries = []
         for m0, m1, limit, flt, cat, rnd in queries_:
             cat = names[cat]
             start = BASE + dt.timedelta(minutes=m0)
@@ -183,12 +184,42 @@ def check_random(ctx, case):
                                 'recordings (saved at %r)' % (
                                     iso(start), iso(end) if end else None, iso(now), cat, flt, limit, len(got), want_n,
                                     [iso(t) for t, c, _, _ in saved if c == cat]), 'missed')
+            done_queries.append((cat, start, end, now, dict(kw), sorted(got), limit, rnd))
             wc = window_class(start, hi)
             ctx.case({'random': [recs_, [m0, m1, limit, flt, cat, rnd], prefix, name]},
                      wc != 'same-day' and len(matching) > 0,
                      classes=('rnd:' + wc, 'rnd:limit' if limit else 'rnd:nolimit', 'rnd:filter' if flt is not None
                               else 'rnd:nofilter', 'rnd:category-with-percent' if '%' in name else
                               'rnd:category-plain'))
+        interleaved(ctx, cas, done_queries)
+
+
+def interleaved(ctx, cas, done_queries):
+    """Two lookups with different windows open on the same cassette at the same time: each returns what it returns
+    alone (exact, unlimited, ordered lookups only - those have one right answer)."""
+    exact = [q for q in done_queries if q[6] is None and not q[7]]
+    if len(exact) < 2:
+        return
+    a, b = exact[0], exact[1]
+    now = max(a[3], b[3])
+    fakes3.CLOCK.now = now
+    try:
+        ia = iter(cas.iter_recording_ids(a[0], start_date=a[1], end_date=a[2] if a[2] is not None else a[3], **a[4]))
+        got_a = [x for _, x in zip(range(1), ia)]
+        ib = iter(cas.iter_recording_ids(b[0], start_date=b[1], end_date=b[2] if b[2] is not None else b[3], **b[4]))
+        got_b = [x for _, x in zip(range(1), ib)]
+        got_a += list(ia)
+        got_b += list(ib)
+    finally:
+        fakes3.CLOCK.now = None
+    for q, got in ((a, got_a), (b, got_b)):
+        if sorted(got) != q[5]:
+            raise Violation('window lookup start=%s end=%s returned %d recordings alone and %d while another window '
+                            'lookup (start=%s end=%s) was open on the same cassette' % (
+                                iso(q[1]), iso(q[2]) if q[2] else 'now', len(q[5]), len(got),
+                                iso((b if q is a else a)[1]), iso((b if q is a else a)[2]) if (b if q is a else a)[2]
+                                else 'now'), 'interleaved')
+    ctx.count('interleaved-window-lookups')
 
 
 def replay(ctx, case):
